@@ -219,7 +219,7 @@ func runC05Scan(t *testing.T, c RestCase) (*h.Violation, h.Info) {
 var c05scan = &h.Campaign[RestCase]{
 	Prop: "C05", Sub: "scan",
 	Rule: "rapid: histories (3-14 calls) whose names and values are >=16-byte high-entropy markers (binary, JSON-special printable, hex-looking), state directory laid out as the server does (database + audit.log via audit.NewFile), real AES-256-GCM KEK behind a counting/poisonable wrapper, umask 0; after EVERY call every file is scanned for every value (raw, hex both cases, base64 std/url at all three alignments, JSON-escaped) and, except audit.log, for every name; mode bits checked; KEK call count must not move after Open (with the KEK poisoned in half the cases); finally a foreign KEK must fail to open and leave the file untouched; non-trivial = >= 3 successful saves scanned; distinct by scenario",
-	Quick: 2000, Thorough: 80000,
+	Quick: 2000, Thorough: 300000,
 	Gen:   genRestCase,
 	Run:   runC05Scan,
 }
@@ -386,7 +386,7 @@ func genTamperCase(rt *rapid.T) TamperCase {
 var c05tamper = &h.Campaign[TamperCase]{
 	Prop: "C05", Sub: "tamper",
 	Rule: "rapid: a database built by a random history under a real KEK, then ONE corruption: a single-bit flip at a generated position, a truncation at a generated length, or a proper mixture of the wrapper fields (Version/DEK/DB) of two different databases under the same KEK; Open must fail (leaving the file untouched) or yield exactly the original contents, never different contents or a panic; every corrupted file differs from the original, so every case is non-trivial (mixtures of equal databases are discounted); distinct by scenario",
-	Quick: 12000, Thorough: 600000,
+	Quick: 12000, Thorough: 2000000,
 	Gen:   genTamperCase,
 	Run:   runC05Tamper,
 }
